@@ -544,11 +544,17 @@ theorem putAcl_putAcl (d : Dev) (n : Name) (es es' : Entries) : putAcl (putAcl d
 /-- `ios_acl_object_converges`, incremental branch: resequence, mode line, numbered adds / moves /
 deletes, final resequence — all accepted; the ACL ends block-equivalent (modulo `log`) to the
 target; nothing else changes. -/
-theorem edit_incremental (aN : Name) (al bl : List ALine) (rs : List NA.Acl.Range)
+theorem opIsAddMove_eq : opIsAddMove = NA.Acl.IOp.isAddMove := by
+  funext op; cases op <;> rfl
+
+/-- … and without a suppressed move (`noSupprPair`) the list ends as EXACTLY the target's (under the
+numeric encoding of the pair; `ios_plan_converges_no_suppression_partial`). -/
+theorem edit_incremental_x (aN : Name) (al bl : List ALine) (rs : List NA.Acl.Range)
     (hok : incrOK al bl rs = true) (d : Dev) (hhas : hasAcl d aN = true) (hmode : d.mode = none)
     (hnd : (aclNames d).Nodup) (hlines : (entriesOf d aN).map (·.2) = al) :
     ∃ esF, evsRun d (editEvents aN al bl rs) = some (putAcl d aN esF) ∧
-      BlockEqG LineEqv ((esF.map (·.2)).map (encP al bl)) (bl.map (encP al bl)) := by
+      BlockEqG LineEqv ((esF.map (·.2)).map (encP al bl)) (bl.map (encP al bl)) ∧
+      (noSupprPair al bl rs = true → (esF.map (·.2)).map (encP al bl) = bl.map (encP al bl)) := by
   simp only [incrOK, Bool.and_eq_true] at hok
   obtain ⟨⟨htf, hnf⟩, hM⟩ := hok
   cases hcells : pairCells al bl rs with
@@ -610,6 +616,22 @@ theorem edit_incremental (aN : Name) (al bl : List ALine) (rs : List NA.Acl.Rang
       have : iosLines s = (es'.map (·.2)).map (encP al bl) := by rw [← henc, iosLines_encE]; rfl
       have hn' : news M = bl.map (encP al bl) := hn
       rw [← this, ← hn']; exact hbe
+    have hfinx : noSupprPair al bl rs = true → (es'.map (·.2)).map (encP al bl) = bl.map (encP al bl) := by
+      intro hns
+      have hcount : ((planIOS M).filter NA.Acl.IOp.isAddMove).length = (NA.Acl.addIdx M).length := by
+        unfold noSupprPair at hns
+        rw [hal, Bool.false_or, hcells] at hns
+        simp only [hboth, Bool.not_true, Bool.false_or, beq_iff_eq] at hns
+        rw [← opIsAddMove_eq]; exact hns
+      obtain ⟨tr2, s2, htr2, hlast2, hx⟩ :=
+        NA.Acl.IosAclProps.ios_plan_converges_no_suppression_partial M hboth hjunk hruns' hno hnn hcount dev hdev
+      have htt : tr2 = tr := by rw [htr] at htr2; exact (Option.some.inj htr2).symm
+      rw [htt, hlast] at hlast2
+      have hss : s2 = s := (Option.some.inj hlast2).symm
+      rw [hss] at hx
+      have : iosLines s = (es'.map (·.2)).map (encP al bl) := by rw [← henc, iosLines_encE]; rfl
+      have hn' : news M = bl.map (encP al bl) := hn
+      rw [← this, ← hn']; exact hx
     unfold editEvents
     simp only [hal, Bool.false_eq_true, ↓reduceIte, hcells, hboth, Bool.not_true]
     by_cases hops : (planIOS M).isEmpty = true
@@ -618,20 +640,21 @@ theorem edit_incremental (aN : Name) (al bl : List ALine) (rs : List NA.Acl.Rang
       simp only [hops, ↓reduceIte, evsRun, List.foldlM_cons, List.foldlM_nil, evRun]
       rw [hnil] at hrun
       have hrun' : reseq es 10000 10000 = es' := by simpa [entriesRun] using hrun
-      refine ⟨es, ?_, ?_⟩
+      have hsame : (es.map (·.2)).map (encP al bl) = (es'.map (·.2)).map (encP al bl) := by
+        rw [← hrun', lines_reseq]
+      refine ⟨es, ?_, ?_, ?_⟩
       · have h1 : strip d = d := by cases d; simp_all [strip]
         rw [hes, putAcl_self d aN hmode hnd]
         exact congrArg some h1
-      · have : (es.map (·.2)).map (encP al bl) = (es'.map (·.2)).map (encP al bl) := by
-          rw [← hrun', lines_reseq]
-        rw [this]; exact hfin
+      · rw [hsame]; exact hfin
+      · intro hns; rw [hsame]; exact hfinx hns
     · simp only [hops, Bool.false_eq_true, ↓reduceIte]
       have hmapev : (planIOS M).map (opEv aN al bl) = ((planIOS M).map (opChg al bl)).map (Ev.sub (.acl aN)) := by
         rw [List.map_map]
         apply List.map_congr_left
         intro op hop
         exact opEv_eq (hdec op hop) aN
-      refine ⟨reseq es' 10 10, ?_, by rw [lines_reseq]; exact hfin⟩
+      refine ⟨reseq es' 10 10, ?_, by rw [lines_reseq]; exact hfin, fun hns => by rw [lines_reseq]; exact hfinx hns⟩
       rw [hmapev, evsRun_append, evsRun_append, evsRun_single, evRun_top_reseq d aN _ _ hhas, Option.bind_some]
       have h1 : hasAcl (putAcl d aN (reseq es 10000 10000)) aN = true := by rw [hasAcl_putAcl]; exact hhas
       have h2 : (aclNames (putAcl d aN (reseq es 10000 10000))).Nodup := by rw [names_putAcl]; exact hnd
@@ -643,6 +666,14 @@ theorem edit_incremental (aN : Name) (al bl : List ALine) (rs : List NA.Acl.Rang
       rw [evRun_top_reseq _ aN _ _ (by rw [hasAcl_putAcl]; exact hhas), entriesOf_putAcl_self d aN _ hhas,
         putAcl_putAcl]
 
+
+theorem edit_incremental (aN : Name) (al bl : List ALine) (rs : List NA.Acl.Range)
+    (hok : incrOK al bl rs = true) (d : Dev) (hhas : hasAcl d aN = true) (hmode : d.mode = none)
+    (hnd : (aclNames d).Nodup) (hlines : (entriesOf d aN).map (·.2) = al) :
+    ∃ esF, evsRun d (editEvents aN al bl rs) = some (putAcl d aN esF) ∧
+      BlockEqG LineEqv ((esF.map (·.2)).map (encP al bl)) (bl.map (encP al bl)) := by
+  obtain ⟨esF, h1, h2, _⟩ := edit_incremental_x aN al bl rs hok d hhas hmode hnd hlines
+  exact ⟨esF, h1, h2⟩
 
 /-! ## The branch "no parts equal" and the empty device ACL -/
 
